@@ -179,6 +179,11 @@ STMTS = [
     ('{n}, {n2} = {a}, {b}',),
     ('{n}, {n2} = ({a} + {b}), {c}',),
     ('{n}, *{n2} = {a}',),
+    ('{n}, {n2} = {a}',),
+    ('{n}, {n2} = {e}',),
+    ('{n}, {n2} = mk(2)',),
+    ('[{n}, {n2}] = mk(2)',),
+    ('{n}, {n2} = mk(6)[{a}]',),
     ('{n} = isinstance({a}, int) or {b}',),
     ('{s} = hash({a})',),
     ('{s} = bool({a})',),
@@ -277,7 +282,10 @@ class Gen:
                 self.sub(ind + 1, depth, 1)
         elif kind == 'for_unpack':
             x, y = self.newvar(), self.newvar()
-            L.append(P + 'for %s, %s in [(%s, %s), (%s, %s)]:' % (x, y, a, b, b, a))
+            if r.random() < 0.5:
+                L.append(P + 'for %s, %s in [(%s, %s), (%s, %s)]:' % (x, y, a, b, b, a))
+            else:
+                L.append(P + 'for %s, %s in [mk(2), mk(6), %s]:' % (x, y, a))
             saved = list(self.vars)
             self.vars += [x, y]
             self.body(ind + 1, 1, depth)
